@@ -22,6 +22,7 @@ def parseLNames (s : String) : Option (List ((Nat × Nat) × String)) :=
 inductive AOp where
   | edit (op : Op) (name : Option String)
   | sfn (id : Nat) (name : String)
+  | rin (impId uid : Nat) (field : String)
   | nop
 
 def parseAOp (s : String) : Option AOp :=
@@ -29,6 +30,7 @@ def parseAOp (s : String) : Option AOp :=
   | ["nop"] => some .nop
   | ["nop", _] => some .nop
   | ["sfn", i, n] => i.toNat?.map (AOp.sfn · n)
+  | ["rin", i, u, n] => do pure (AOp.rin (← i.toNat?) (← u.toNat?) n)
   | ["alf", u, _, n] => u.toNat?.map (fun u => AOp.edit (.addLocalFunc u []) (if n = "-" then none else some n))
   | _ => (parseEOp s).map (AOp.edit · none)
 
@@ -51,6 +53,11 @@ def runAOps (s : NSt) (rets : List String) : List AOp → Option (NSt × List St
     match setFnName s id n with
     | some s' => runAOps s' rets rest
     | none => none
+  | .rin impId uid field :: rest =>
+    let r := replaceImportNamed s impId uid field
+    match r.2 with
+    | .panic _ => none
+    | _ => runAOps r.1 rets rest
   | .edit op nm :: rest =>
     let r := step s.e op
     match r.2 with
